@@ -134,8 +134,8 @@ theorem rxcs_cfg (m : MacState) (mp : Nat) (cs : List (RxView × Int)) (os : Lis
     have h1 := macHandleRx_c_cfg _ _ _ _ _ _ hrx
     cases o with
     | none =>
-      simp only [pure, Except.pure, Except.ok.injEq, Prod.mk.injEq] at hk
-      rw [← hk.2.2]; exact h1
+      simp only at hk
+      rw [ih m1 os fin hk, h1]
     | some o =>
       simp only at hk
       obtain ⟨⟨os2, fin2, m2⟩, hrest, hk2⟩ := Except.bind_eq_ok hk
